@@ -409,3 +409,25 @@ def a9(ctx):
                           "collation %s maps both operands alike, per character" % name, "chain %s" % (ca,),
                           "collation %s: %s, so whether a text matches depends on where in the value it occurs" % (name, problem)))
     return obs
+
+
+@rule("C12", "A10", floor=1, kind="S",
+      desc="a collation is given text: the property instance handed to apply_text_match is converted with str() "
+           "(vobject values of N, ADR, ORG are objects / lists on which the collations fail)")
+def a10(ctx):
+    fi = ctx.func("xandikos.carddav.apply_prop_filter")
+    cfg = ctx.cfg(fi)
+    du = DefUse(cfg)
+    obs = []
+    for n in cfg.nodes:
+        for c in n.calls():
+            if (dotted(c.func) or "").split(".")[-1] == "apply_text_match" and len(c.args) >= 2:
+                os_ = origins(du, n, c.args[1])
+                ok = bool(os_) and all(o.kind == "expr" and (isinstance(o.leaf, ast.JoinedStr) or (isinstance(o.leaf, ast.Call) and (
+                    dotted(o.leaf.func) == "str" or (isinstance(o.leaf.func, ast.Attribute) and o.leaf.func.attr in ("decode", "format", "join", "serialize"))))) for o in os_)
+                obs.append(ctx.ob(ok, fi.qualname, where(fi, n), "text-match operates on str(<property>)", "apply_text_match(el, str(...))",
+                                  "apply_text_match is given `%s`, which need not be a str (vobject Name / Address / list values): the "
+                                  "collation raises and the whole report fails, or compares by list membership" % src(c.args[1])))
+    if not obs:
+        raise AnalysisError("apply_prop_filter: apply_text_match call not found")
+    return obs
